@@ -44,3 +44,7 @@ package dns
 //@ func (*RRSIG).ValidityPeriod [C17]
 //@   ensures window: !timezero(t.wall, t.ext) && 0 - 2147483648 < rr.Inception - unixsec(t.wall, t.ext) && rr.Inception - unixsec(t.wall, t.ext) < 2147483648 && 0 - 2147483648 < rr.Expiration - unixsec(t.wall, t.ext) && rr.Expiration - unixsec(t.wall, t.ext) < 2147483648 ==> ret0 == (rr.Inception <= unixsec(t.wall, t.ext) && unixsec(t.wall, t.ext) <= rr.Expiration)
 //@   pure
+
+// RFC 4034 3.1.8.1 / 2.1: RRSIG RDATA without the signature, DNSKEY RDATA
+//@ wirefmt packSigWire TypeCovered:u16 Algorithm:u8 Labels:u8 OrigTtl:u32 Expiration:u32 Inception:u32 KeyTag:u16 SignerName:pubname [C10]
+//@ wirefmt packKeyWire Flags:u16 Protocol:u8 Algorithm:u8 PublicKey:b64 [C10 C17]
